@@ -178,7 +178,9 @@ OmercShapes ==
     {Omerc(1150, 40, "53.3158204722", "53.1301023611", FALSE, "0.99984"),
      OmB(Omerc(1150, 40, "53.3158204722", "53.1301023611", TRUE, "0.99984"), "590476.87", "442857.65"),
      OmB(Omerc(-700, -360, "30", "20", TRUE, "0.9999"), "1000", "2000"),
-     Omerc(200, 400, "90", "90", FALSE, "1"), Omerc(200, 400, "90", "90", TRUE, "1")}
+     Omerc(200, 400, "90", "90", FALSE, "1"), Omerc(200, 400, "90", "90", TRUE, "1"),
+     \* ... and next to it: the closed form for lambda_0 must not lose its digits where asin is ill-conditioned
+     Omerc(200, 400, "-90", "-90", TRUE, "1"), Omerc(200, -400, "89.999999", "89.999999", TRUE, "1")}
     \cup (IF Q THEN {} ELSE {Omerc(-700, -360, "30", "30", FALSE, "0.9999"), Omerc(200, 400, "-40", "-40", TRUE, "1"), Omerc(200, 400, "-75", "-75", FALSE, "1"),
                              Omerc(200, 400, "53", "0", TRUE, "1"), Omerc(200, 0, "45", "45", TRUE, "1"), Omerc(200, 400, "5", "5", FALSE, "0.9996")})
 
